@@ -108,7 +108,8 @@ def run_programs(spec):
         sh.tally("runs", "conforming")
         pipework.monitor_failures(sh, r, case, seg=True)
         sh.add_asserts({k: v for k, v in r.sess.asserts.items() if k.startswith("seg.")})
-        if r.outcome == "ok" and not r.errors():
+        if r.outcome == "ok":
+            # the file conforms by construction: the invariants do not depend on what the tool reported
             check_conforming(sh, p, r, case)
         for q, o, exp in pipework.sampled_variants(p, rng, 3):
             s2 = q.text()
@@ -209,7 +210,7 @@ def replay(case, sh):
     pipework.monitor_failures(sh, r, case, seg=True)
     if r.sess.unrec and r.outcome == "ok":
         sh.violation("unrecognised_dropped", (case.get("fragment"),), case, {"status": r.status, "first": r.sess.unrec[0]})
-    if case.get("conforming") and r.outcome == "ok" and not r.errors():
+    if case.get("conforming") and r.outcome == "ok":
         from nv.gen.ir import Prog, Line
         p = Prog(case["name"], [Line("raw", [("x", "raw")]) for _ in range(case.get("ir_lines", 0))])
         check_conforming(sh, p, r, case)
